@@ -152,7 +152,11 @@ impl IncomingToken {
                 if address != remote_address {
                     return Err(InvalidRetryTokenError);
                 }
-                if issued + server_config.retry_token_lifetime < server_config.time_source.now() {
+                // A token whose expiry cannot be represented is as good as malformed
+                let Some(expiry) = issued.checked_add(server_config.retry_token_lifetime) else {
+                    return Err(InvalidRetryTokenError);
+                };
+                if expiry < server_config.time_source.now() {
                     return Err(InvalidRetryTokenError);
                 }
 
@@ -166,9 +170,11 @@ impl IncomingToken {
                 if ip != remote_address.ip() {
                     return Ok(unvalidated);
                 }
-                if issued + server_config.validation_token.lifetime
-                    < server_config.time_source.now()
-                {
+                let Some(expiry) = issued.checked_add(server_config.validation_token.lifetime)
+                else {
+                    return Ok(unvalidated);
+                };
+                if expiry < server_config.time_source.now() {
                     return Ok(unvalidated);
                 }
                 if server_config
@@ -370,7 +376,10 @@ fn encode_unix_secs(buf: &mut Vec<u8>, time: SystemTime) {
 }
 
 fn decode_unix_secs<B: Buf>(buf: &mut B) -> Option<SystemTime> {
-    Some(UNIX_EPOCH + Duration::from_secs(buf.get::<u64>().ok()?))
+    // `SystemTime` cannot hold every 64-bit number of seconds; an authentic token carrying such a
+    // value (e.g. minted by an incompatible endpoint sharing the key) is a decoding error, not a
+    // reason to panic
+    UNIX_EPOCH.checked_add(Duration::from_secs(buf.get::<u64>().ok()?))
 }
 
 /// Stateless reset token
